@@ -227,7 +227,25 @@ Fixpoint agree_loop (late : bool) (a : ast) (steps : list (lev * list msg)) : bo
       end
   end.
 
+(* the model state after an observed sequencer trace (None: model and implementation already disagree) *)
+Fixpoint state_after (late : bool) (s : seqst) (steps : list istep) : option seqst :=
+  match steps with
+  | [] => Some s
+  | ICb e :: r => match on_cb e s with Some s' => state_after late s' r | None => None end
+  | IFlush ms :: r =>
+      let '(s', mm) := flush_gen late (map tag_of ms) s in
+      if msgs_eqb mm ms then state_after late s' r else None
+  | IPanic :: _ => None
+  end.
+(* after [steps], one more callback [e] (outside the contract); did the implementation reach log.Panic? *)
+Definition agree_panic (late : bool) (steps : list istep) (e : cb) (panicked : bool) : bool :=
+  match state_after late seq0 steps with
+  | Some s => match on_cb e s with None => panicked | Some _ => negb panicked end
+  | None => false
+  end.
+
 Inductive case :=
+| CasePanic (steps : list istep) (e : cb) (panicked : bool)   (* contract-respecting prefix, then one malformed callback *)
 | CaseSeq (steps : list istep)                 (* real EventSequencer driven directly *)
 | CaseLoop (steps : list (lev * list msg))     (* real AsyncCalcGraph loop around the real sequencer *)
 | CaseGraph (steps : list (lev * list msg)).   (* whole real calculation graph: oracle only; callbacks are those the
@@ -237,6 +255,9 @@ Inductive case :=
    The model is accepted with either order of the VXLAN phases (Model.vxlan_phases); theorems exist for both. *)
 Definition check_case (c : case) : bool * bool :=
   match c with
+  | CasePanic steps e panicked =>
+      (in_contract world0 steps && (agree_panic false steps e panicked || agree_panic true steps e panicked),
+       ok_trace world0 world0 steps)
   | CaseSeq steps =>
       (in_contract world0 steps && (agree_trace false seq0 steps || agree_trace true seq0 steps),
        ok_trace world0 world0 steps)
